@@ -6,22 +6,40 @@ From Krp Require Export Types Env Registry Cw20 Reward Dispatcher Hub.
 Definition call (w : world) (sender target : addr) (m : wasm_msg) (funds : list coin)
   : result (world * list cmsg) :=
   if target =? A_hub then
-    match m with WHub hm => hub_execute w target sender funds hm | _ => None end
-  else if target =? A_reward then
     match m with
-    | WReward rm => reward_execute w target sender rm
-    | WHub (HUpdateGlobal _) => reward_execute w target sender RUpdateIndex
-        (* the dispatcher sends the hub-shaped UpdateGlobalIndex; serde ignores the extra field *)
+    | WHub hm =>
+        do h <- w_hub w; do r <- hub_execute w h target sender funds hm; Some (set_hub w (fst r), snd r)
     | _ => None
     end
+  else if target =? A_reward then
+    do rm <- match m with
+             | WReward rm => Some rm
+             | WHub (HUpdateGlobal _) => Some RUpdateIndex
+                 (* the dispatcher sends the hub-shaped UpdateGlobalIndex; serde ignores the extra field *)
+             | _ => None
+             end;
+    do x <- w_reward w; do r <- reward_execute w x target sender rm; Some (set_reward w (fst r), snd r)
   else if target =? A_disp then
-    match m with WDisp dm => disp_execute w target sender dm | _ => None end
+    match m with
+    | WDisp dm =>
+        do x <- w_disp w; do r <- disp_execute w x target sender dm; Some (set_disp w (fst r), snd r)
+    | _ => None
+    end
   else if target =? A_reg then
-    match m with WReg gm => reg_execute w sender gm | _ => None end
+    match m with
+    | WReg gm => do x <- w_reg w; do r <- reg_execute w x sender gm; Some (set_reg w (fst r), snd r)
+    | _ => None
+    end
   else if target =? A_bsei then
-    match m with WCw20 cm => bsei_execute w sender cm | _ => None end
+    match m with
+    | WCw20 cm => do x <- w_bsei w; do r <- bsei_execute w x sender cm; Some (set_bsei w (fst r), snd r)
+    | _ => None
+    end
   else if target =? A_stsei then
-    match m with WCw20 cm => stsei_execute w sender cm | _ => None end
+    match m with
+    | WCw20 cm => do x <- w_stsei w; do r <- stsei_execute w x sender cm; Some (set_stsei w (fst r), snd r)
+    | _ => None
+    end
   else if target =? A_swap then
     match m with
     | WSwap sm => do e <- swap_execute (w_env w) sender sm; Some (set_env w e, [])
